@@ -80,6 +80,8 @@ pub struct Profile {
     pub phony_refs: u32,
     /// chance (n/8) that module-scope declarations are emitted in a permuted order
     pub shuffle_items: u32,
+    /// chance (n/8) per generated name to be a Rust keyword that WGSL does not reserve (in, dyn, box)
+    pub keyword_names: u32,
 }
 
 impl Profile {
@@ -117,6 +119,7 @@ impl Profile {
             out_as_storage: 0,
             phony_refs: 0,
             shuffle_items: 3,
+            keyword_names: 0,
         }
     }
 }
@@ -127,16 +130,26 @@ impl Profile {
 pub struct Names {
     used: HashSet<String>,
     n: usize,
+    /// chance out of 64 that a fresh name is a Rust keyword WGSL does not reserve
+    pub keywords: u32,
 }
 
 const NONASCII: [&str; 6] = ["ß", "ö", "Δ", "名", "é", "я"];
 
 impl Names {
     pub fn new() -> Self {
-        Names { used: HashSet::new(), n: 0 }
+        Names { used: HashSet::new(), n: 0, keywords: 0 }
     }
     /// A fresh identifier unique up to case. `cap` = first letter upper-case (type-like).
     pub fn fresh(&mut self, ch: &mut Ch, prefix: &str, nonascii: u32) -> String {
+        if self.keywords > 0 && ch.chance(self.keywords, 64) {
+            // type-like names are capitalised (their snake_case form is the keyword)
+            let cands: [&str; 3] = if prefix.chars().next().map(|c| c.is_uppercase()).unwrap_or(false) { ["In", "Dyn", "Box"] } else { ["in", "dyn", "box"] };
+            let c = *ch.pick(&cands);
+            if self.used.insert(c.to_lowercase()) {
+                return c.to_string();
+            }
+        }
         loop {
             self.n += 1;
             // letter-case variety: identifiers are case-sensitive in WGSL, and several generated Rust
@@ -887,6 +900,7 @@ pub fn gen_io_struct(ch: &mut Ch, p: &Profile, names: &mut Names, role: IoRole) 
 
 pub fn gen_shader(ch: &mut Ch, p: &Profile) -> Shader {
     let mut names = Names::new();
+    names.keywords = p.keyword_names;
     for r in ["acc", "x", "out_value"] {
         names.reserve(r);
     }
